@@ -26,6 +26,7 @@ use zipora::containers::specialized::{AutoGrowCircularQueue, FixedCircularQueue,
 use zipora::containers::FastVec;
 use zipora::memory::bump::{BumpAllocator, BumpVec};
 use zipora::memory::cache::CacheAlignedVec;
+use zipora::memory::cache_layout::{AccessPattern, CacheAlignedVec as LayoutVec};
 use zipora::memory::mmap_vec::{MmapVec, MmapVecConfig};
 use zipora::memory::pool::PooledVec;
 
@@ -36,7 +37,7 @@ mod strs;
 // elements
 // =================================================================================================
 
-pub trait Elem: Clone + 'static {
+pub trait Elem: Clone + PartialEq + 'static {
     fn mk(reg: &DropRegistry, id: u64) -> Self;
     fn id(&self) -> u64;
     fn ok(&self) -> bool;
@@ -67,6 +68,30 @@ impl Elem for u64 {
     const TRACKED: bool = false;
 }
 
+impl Elem for u8 {
+    fn mk(_reg: &DropRegistry, id: u64) -> Self {
+        id as u8
+    }
+    fn id(&self) -> u64 {
+        *self as u64
+    }
+    fn ok(&self) -> bool {
+        true
+    }
+    const TRACKED: bool = false;
+}
+/// zero-sized elements: all carry id 0
+impl Elem for () {
+    fn mk(_reg: &DropRegistry, _id: u64) -> Self {}
+    fn id(&self) -> u64 {
+        0
+    }
+    fn ok(&self) -> bool {
+        true
+    }
+    const TRACKED: bool = false;
+}
+
 // =================================================================================================
 // operations
 // =================================================================================================
@@ -86,6 +111,8 @@ pub enum Len {
     Zero,
     Minus1,
     Plus2,
+    /// (audit) enough one-byte elements to cross the 64-byte SIMD threshold of the fill paths
+    Plus70,
 }
 
 #[derive(Clone, Copy, Debug, PartialEq, Eq)]
@@ -118,6 +145,17 @@ pub enum COp {
     PopFront,
     PushBulk(usize),
     PopBulk(usize),
+    // appended by the coverage audit
+    /// extend(iterator of n fresh elements)
+    ExtendIter(usize),
+    /// the alternative entry point for appending one element (push_panic / unchecked_push / push() of a queue)
+    PushAlt,
+    /// the alternative entry point for taking one element (pop() of a queue)
+    PopAlt,
+    /// fill the sub-range 1..len-1 with one value
+    FillMid,
+    /// fill 0..len+1: out of range, must be refused and change nothing
+    FillPast,
 }
 
 /// What an operation reported.
@@ -144,6 +182,18 @@ pub struct Obs {
     pub gets: Option<Vec<Option<u64>>>,
     pub front: Option<Option<u64>>,
     pub back: Option<Option<u64>>,
+    /// (audit) further views of the whole sequence (iterators, Deref, ...), each compared with the model
+    pub alt: Vec<(&'static str, Vec<u64>)>,
+    /// (audit) named boolean observers and what they answered; the expectation is computed from the model
+    pub claims: Vec<(&'static str, bool, Claim)>,
+}
+
+/// what the model says a boolean observer must answer
+#[derive(Clone, Copy, Debug, PartialEq, Eq)]
+pub enum Claim {
+    True,
+    /// true iff the container holds exactly this many elements
+    LenIs(usize),
 }
 
 pub struct Cx<'a> {
@@ -186,6 +236,7 @@ fn new_len(l: Len, len: usize) -> usize {
         Len::Zero => 0,
         Len::Minus1 => len.saturating_sub(1),
         Len::Plus2 => len + 2,
+        Len::Plus70 => len + 70,
     }
 }
 fn r<E>(x: Result<(), E>) -> Ret {
@@ -206,20 +257,43 @@ fn fresh<E: Elem>(cx: &Cx, n: usize) -> Vec<E> {
 
 struct FastVecAd<E: Elem>(FastVec<E>);
 
+/// start/end of the "middle" range used by FillMid (empty when fewer than two elements)
+fn mid_range(len: usize) -> (usize, usize) {
+    if len >= 2 {
+        (1, len - 1)
+    } else {
+        (len, len)
+    }
+}
+
+/// the T: Copy bulk API of FastVec
+fn fastvec_copy_ops<T: Copy>(v: &mut FastVec<T>, op: COp, vals: &[T]) -> Ret {
+    let l = v.len();
+    match op {
+        COp::ExtendSlice(n) => r(v.extend_from_slice_fast(&vals[..n])),
+        COp::Assign(n) => r(v.copy_from_slice_fast(&vals[..n])),
+        COp::FillAll => r(v.fill_range_fast(0, l, vals[0])),
+        COp::FillMid => {
+            let (a, b) = mid_range(l);
+            r(v.fill_range_fast(a, b, vals[0]))
+        }
+        COp::FillPast => r(v.fill_range_fast(0, l + 1, vals[0])),
+        _ => Ret::NotOffered,
+    }
+}
+
 impl<E: Elem> FastVecAd<E> {
     fn copy_ops(&mut self, op: COp, cx: &Cx) -> Ret {
-        // the T: Copy API, only reachable for u64
+        // the T: Copy API, only reachable for the Copy element types
         let any: &mut dyn std::any::Any = &mut self.0;
-        let Some(v) = any.downcast_mut::<FastVec<u64>>() else { return Ret::NotOffered };
-        match op {
-            COp::ExtendSlice(n) => r(v.extend_from_slice_fast(&cx.ids[..n])),
-            COp::Assign(n) => r(v.copy_from_slice_fast(&cx.ids[..n])),
-            COp::FillAll => {
-                let l = v.len();
-                r(v.fill_range_fast(0, l, cx.ids[0]))
-            }
-            _ => Ret::NotOffered,
+        if let Some(v) = any.downcast_mut::<FastVec<u64>>() {
+            return fastvec_copy_ops(v, op, cx.ids);
         }
+        if let Some(v) = any.downcast_mut::<FastVec<u8>>() {
+            let vals: Vec<u8> = cx.ids.iter().map(|&i| i as u8).collect();
+            return fastvec_copy_ops(v, op, &vals);
+        }
+        Ret::NotOffered
     }
 }
 
@@ -241,18 +315,20 @@ impl<E: Elem> Cont for FastVecAd<E> {
                 }))
             }
             COp::Extend2 => r(v.extend(fresh::<E>(cx, 2))),
+            COp::ExtendIter(n) => r(v.extend(fresh::<E>(cx, n))),
             COp::Clear => {
                 v.clear();
                 Ret::Done
             }
             COp::Shrink => r(v.shrink_to_fit()),
             COp::Reserve(k) => r(v.reserve(k)),
-            COp::ExtendSlice(_) | COp::Assign(_) | COp::FillAll => self.copy_ops(op, cx),
+            COp::ExtendSlice(_) | COp::Assign(_) | COp::FillAll | COp::FillMid | COp::FillPast => self.copy_ops(op, cx),
             _ => Ret::NotOffered,
         }
     }
     fn observe(&self) -> Obs {
         let v = &self.0;
+        let deref: &[E] = v;
         Obs {
             len: v.len(),
             is_empty: v.is_empty(),
@@ -261,6 +337,8 @@ impl<E: Elem> Cont for FastVecAd<E> {
             gets: Some((0..=v.len() + 1).map(|i| v.as_slice().get(i).map(|e| e.id())).collect()),
             front: Some(v.first().map(|e| e.id())),
             back: Some(v.last().map(|e| e.id())),
+            alt: vec![("Deref::deref().iter()", deref.iter().map(|e| e.id()).collect())],
+            claims: Vec::new(),
         }
     }
     fn try_clone(&self) -> Option<Box<dyn Cont>> {
@@ -287,6 +365,11 @@ impl<E: Elem> ValVecAd<E> {
         match op {
             COp::ExtendSlice(n) => r(v.extend_from_slice_copy(&cx.ids[..n])),
             COp::PushN(n) => r(v.push_n_copy(n as u32, cx.ids[0])),
+            COp::PushAlt if v.len() < v.capacity() => {
+                // precondition of the unchecked entry point: spare capacity
+                unsafe { v.unchecked_push_copy(cx.ids[0]) };
+                Ret::Done
+            }
             _ => Ret::NotOffered,
         }
     }
@@ -309,6 +392,23 @@ impl<E: Elem> Cont for ValVecAd<E> {
                 Ret::Done
             }
             COp::Reserve(k) => r(v.reserve(k as u32)),
+            COp::PushAlt => {
+                // even ids: the unchecked entry point where its precondition (spare capacity) holds, Copy variant for u64;
+                // otherwise push_panic (own slow path push_slow_panic)
+                if cx.ids[0] % 2 == 0 && v.len() < v.capacity() {
+                    if !E::TRACKED {
+                        let r = self.copy_ops(op, cx);
+                        if r != Ret::NotOffered {
+                            return r;
+                        }
+                    }
+                    let v = &mut self.0;
+                    unsafe { v.unchecked_push(E::mk(cx.reg, cx.ids[0])) };
+                } else {
+                    v.push_panic(E::mk(cx.reg, cx.ids[0]));
+                }
+                Ret::Done
+            }
             COp::ExtendSlice(_) | COp::PushN(_) => self.copy_ops(op, cx),
             _ => Ret::NotOffered,
         }
@@ -324,6 +424,8 @@ impl<E: Elem> Cont for ValVecAd<E> {
             gets: Some((0..=n + 1).map(|i| v.get(i as u32).map(|e| e.id())).collect()),
             front: None,
             back: None,
+            alt: vec![("iter()", v.iter().map(|e| e.id()).collect()), ("(&v).into_iter()", v.into_iter().map(|e| e.id()).collect())],
+            claims: Vec::new(),
         }
     }
     fn try_clone(&self) -> Option<Box<dyn Cont>> {
@@ -372,6 +474,8 @@ impl<E: Elem> Cont for CacheVecAd<E> {
             gets: Some((0..=v.len() + 1).map(|i| v.get(i).map(|e| e.id())).collect()),
             front: None,
             back: None,
+            alt: Vec::new(),
+            claims: Vec::new(),
         }
     }
     fn drain(&mut self) -> Option<Vec<u64>> {
@@ -426,6 +530,8 @@ impl<E: Elem> Cont for BumpVecAd<E> {
             gets: Some((0..=v.len() + 1).map(|i| v.as_slice().get(i).map(|e| e.id())).collect()),
             front: None,
             back: None,
+            alt: Vec::new(),
+            claims: Vec::new(),
         }
     }
     fn drain(&mut self) -> Option<Vec<u64>> {
@@ -460,56 +566,69 @@ impl<E: Elem> Cont for PooledVecAd<E> {
             gets: Some((0..=v.len() + 1).map(|i| v.as_slice().get(i).map(|e| e.id())).collect()),
             front: None,
             back: None,
+            alt: Vec::new(),
+            claims: Vec::new(),
         }
     }
 }
 
-// ---- MmapVec<u64> ---------------------------------------------------------------------------------
+// ---- MmapVec<u64> / MmapVec<u8> ---------------------------------------------------------------------
 
-struct MmapVecAd {
-    v: Option<MmapVec<u64>>,
+struct MmapVecAd<E: Elem + Copy> {
+    v: Option<MmapVec<E>>,
     path: PathBuf,
 }
 
-impl Drop for MmapVecAd {
+impl<E: Elem + Copy> Drop for MmapVecAd<E> {
     fn drop(&mut self) {
         self.v.take();
         let _ = std::fs::remove_file(&self.path);
     }
 }
 
-impl Cont for MmapVecAd {
+impl<E: Elem + Copy> Cont for MmapVecAd<E> {
     fn apply(&mut self, op: COp, cx: &Cx) -> Ret {
         let v = self.v.as_mut().unwrap();
         let len = v.len();
+        let e0 = E::mk(cx.reg, cx.ids[0]);
         match op {
-            COp::Push => r(v.push(cx.ids[0])),
-            COp::Pop => Ret::Val(v.pop()),
-            COp::Resize(l) => r(v.resize(new_len(l, len), cx.ids[0])),
+            COp::Push => r(v.push(e0)),
+            COp::Pop => Ret::Val(v.pop().map(|e| e.id())),
+            COp::Resize(l) => r(v.resize(new_len(l, len), e0)),
             COp::Truncate(l) => r(v.truncate(new_len(l, len))),
-            COp::Extend2 => r(v.extend(cx.ids[..2].iter().copied())),
-            COp::ExtendSlice(n) => r(v.push_bulk_simd(&cx.ids[..n])),
-            COp::PopN(n) => Ret::Vals(v.pop_bulk_simd(n).map_err(|_| ())),
-            COp::FillAll => r(v.fill_range_simd(0..len, cx.ids[0])),
+            COp::Extend2 => r(v.extend(fresh::<E>(cx, 2))),
+            COp::ExtendSlice(n) => r(v.push_bulk_simd(&fresh::<E>(cx, n))),
+            COp::PopN(n) => Ret::Vals(v.pop_bulk_simd(n).map(|x| x.iter().map(|e| e.id()).collect()).map_err(|_| ())),
+            COp::FillAll => r(v.fill_range_simd(0..len, e0)),
+            COp::FillMid => {
+                let (a, b) = mid_range(len);
+                r(v.fill_range_simd(a..b, e0))
+            }
+            COp::FillPast => r(v.fill_range_simd(0..len + 1, e0)),
             COp::Clear => r(v.clear()),
             COp::Shrink => r(v.shrink_to_fit()),
             COp::Reserve(k) => r(v.reserve(k)),
             COp::Set(p) => match v.get_mut(idx_rm(p, len)) {
                 Some(slot) => {
-                    *slot = cx.ids[0];
+                    *slot = e0;
                     Ret::Ok
                 }
                 None => Ret::Err,
             },
             COp::Assign(n) => {
                 // copy_from_simd takes another MmapVec as the source
-                let p = cx.scratch.join(format!("c10-src-{}.mmv", cx.ids[0]));
+                let p = cx.scratch.join(format!("c10-src-{}-{}.mmv", std::process::id(), cx.ids[0]));
                 let res = (|| -> Result<(), ()> {
-                    let mut src = MmapVec::<u64>::create(&p, MmapVecConfig { initial_capacity: 2, ..MmapVecConfig::default() }).map_err(|_| ())?;
-                    for &i in &cx.ids[..n] {
-                        src.push(i).map_err(|_| ())?;
+                    let mut src = MmapVec::<E>::create(&p, MmapVecConfig { initial_capacity: 2, ..MmapVecConfig::default() }).map_err(|_| ())?;
+                    for x in fresh::<E>(cx, n) {
+                        src.push(x).map_err(|_| ())?;
                     }
-                    v.copy_from_simd(&src).map_err(|_| ())
+                    v.copy_from_simd(&src).map_err(|_| ())?;
+                    // the comparison observer must agree that the copy equals its source
+                    match v.compare_range_simd(0..n, &src) {
+                        Ok(true) => Ok(()),
+                        _ => panic!("compare_range_simd(0..{n}, source) is not Ok(true) right after copy_from_simd(source)"),
+                    }
                 })();
                 let _ = std::fs::remove_file(&p);
                 r(res)
@@ -523,20 +642,59 @@ impl Cont for MmapVecAd {
             len: v.len(),
             is_empty: v.is_empty(),
             cap: Some(v.capacity()),
-            items: Some(v.as_slice().iter().map(|x| (*x, true)).collect()),
-            gets: Some((0..=v.len() + 1).map(|i| v.get(i).copied()).collect()),
+            items: Some(items(v.as_slice())),
+            gets: Some((0..=v.len() + 1).map(|i| v.get(i).map(|e| e.id())).collect()),
             front: None,
             back: None,
+            alt: vec![("(&v).into_iter()", v.into_iter().map(|e| e.id()).collect())],
+            claims: vec![
+                ("(&v).into_iter().len() == len()", v.into_iter().len() == v.len(), Claim::True),
+                ("compare_range_simd(0..len, self)", matches!(v.compare_range_simd(0..v.len(), v), Ok(true)), Claim::True),
+            ],
         }
     }
     fn drain(&mut self) -> Option<Vec<u64>> {
         let v = self.v.as_mut().unwrap();
         let mut out = Vec::new();
         while let Some(e) = v.pop() {
-            out.push(e);
+            out.push(e.id());
         }
         out.reverse();
         Some(out)
+    }
+}
+
+// ---- cache_layout::CacheAlignedVec (the second type of that name: a Vec with prefetch hints) ----------
+
+struct LayoutVecAd<E: Elem>(LayoutVec<E>);
+
+impl<E: Elem> Cont for LayoutVecAd<E> {
+    fn apply(&mut self, op: COp, cx: &Cx) -> Ret {
+        match op {
+            COp::Push => {
+                self.0.push(E::mk(cx.reg, cx.ids[0]));
+                Ret::Ok
+            }
+            _ => Ret::NotOffered,
+        }
+    }
+    fn observe(&self) -> Obs {
+        let v = &self.0;
+        let n = v.len();
+        Obs {
+            len: n,
+            is_empty: v.is_empty(),
+            cap: None,
+            items: Some(items(v.as_slice())),
+            gets: Some((0..=n + 1).map(|i| v.get(i).map(|e| e.id())).collect()),
+            front: None,
+            back: None,
+            alt: vec![
+                ("slice(0..len)", v.slice(0..n).map(|s| s.iter().map(|e| e.id()).collect()).unwrap_or_else(|| vec![u64::MAX])),
+                ("slice(0..1) + slice(1..len)", if n >= 1 { v.slice(0..1).into_iter().chain(v.slice(1..n)).flat_map(|s| s.iter().map(|e| e.id())).collect() } else { Vec::new() }),
+            ],
+            claims: vec![("slice(0..len+1).is_none()", v.slice(0..n + 1).is_none(), Claim::True)],
+        }
     }
 }
 
@@ -549,6 +707,8 @@ impl<E: Elem, const N: usize> Cont for FixedQAd<E, N> {
         match op {
             COp::PushBack => r(self.0.push_back(E::mk(cx.reg, cx.ids[0]))),
             COp::PopFront => Ret::Val(self.0.pop_front().map(|e| e.id())),
+            COp::PushAlt => r(self.0.push(E::mk(cx.reg, cx.ids[0]))),
+            COp::PopAlt => Ret::Val(self.0.pop().map(|e| e.id())),
             COp::Clear => {
                 self.0.clear();
                 Ret::Done
@@ -566,6 +726,8 @@ impl<E: Elem, const N: usize> Cont for FixedQAd<E, N> {
             gets: None,
             front: Some(q.front().map(|e| e.id())),
             back: Some(q.back().map(|e| e.id())),
+            alt: Vec::new(),
+            claims: vec![("is_full()", q.is_full(), Claim::LenIs(N))],
         }
     }
     fn drain(&mut self) -> Option<Vec<u64>> {
@@ -585,6 +747,8 @@ impl<E: Elem> Cont for AutoQAd<E> {
         match op {
             COp::PushBack => r(q.push_back(E::mk(cx.reg, cx.ids[0]))),
             COp::PopFront => Ret::Val(q.pop_front().map(|e| e.id())),
+            COp::PushAlt => r(q.push(E::mk(cx.reg, cx.ids[0]))),
+            COp::PopAlt => Ret::Val(q.pop().map(|e| e.id())),
             COp::PushBulk(n) => {
                 let src = fresh::<E>(cx, n);
                 match q.push_bulk(&src) {
@@ -616,6 +780,9 @@ impl<E: Elem> Cont for AutoQAd<E> {
             gets: None,
             front: Some(q.front().map(|e| e.id())),
             back: Some(q.back().map(|e| e.id())),
+            alt: Vec::new(),
+            // PartialEq walks both rings with its own iterator
+            claims: vec![("self == self.clone()", *q == q.clone(), Claim::True)],
         }
     }
     fn try_clone(&self) -> Option<Box<dyn Cont>> {
@@ -647,6 +814,8 @@ pub struct ContSpec {
     pub depth_q: usize,
     pub depth_t: usize,
     pub note: &'static str,
+    /// (audit) element ids as the element type can represent them (identity; `% 256` for u8; 0 for zero-sized elements)
+    pub norm: fn(u64) -> u64,
 }
 
 pub struct St {
@@ -675,6 +844,8 @@ impl Drop for St {
 fn ids_needed(op: COp, len: usize) -> usize {
     match op {
         COp::Push | COp::PushBack | COp::Insert(_) | COp::Resize(_) | COp::Set(_) | COp::FillAll | COp::PushN(_) => 1,
+        COp::PushAlt | COp::FillMid | COp::FillPast => 1,
+        COp::ExtendIter(n) => n.max(1),
         COp::ResizeWith(l) => new_len(l, len).saturating_sub(len).max(1),
         COp::Extend2 => 2,
         COp::ExtendSlice(n) | COp::Assign(n) | COp::PushBulk(n) | COp::PopBulk(n) => n.max(1),
@@ -696,7 +867,7 @@ impl ContSpec {
     fn step(&self, st: &mut St, op: COp) -> Result<(), Fail> {
         let len = st.model.len();
         let n_ids = ids_needed(op, len);
-        let ids: Vec<u64> = (st.next_id..st.next_id + n_ids as u64).collect();
+        let ids: Vec<u64> = (st.next_id..st.next_id + n_ids as u64).map(self.norm).collect();
         st.next_id += n_ids as u64;
 
         if op == COp::CloneSwap {
@@ -711,6 +882,10 @@ impl ContSpec {
         let cx = Cx { reg: &st.reg, ids: &ids, scratch: &st.scratch };
         let got = st.cont.as_mut().unwrap().apply(op, &cx);
         if got == Ret::NotOffered {
+            if matches!(op, COp::ExtendIter(_) | COp::PushAlt | COp::PopAlt | COp::FillMid | COp::FillPast) {
+                // the audit's operations are only put into alphabets of containers that offer them
+                return Err(Fail::new("machinery", format!("{op:?} is in the alphabet but the adapter does not offer it")));
+            }
             return Ok(());
         }
         let m = &st.model;
@@ -809,6 +984,35 @@ impl ContSpec {
                     m.drain(..k);
                 }))
             }
+            COp::ExtendIter(n) => {
+                let ids2 = ids.clone();
+                (Ret::Ok, true, "return_value", Box::new(move |m| m.extend(ids2[..n].iter().copied())))
+            }
+            COp::PushAlt => match self.fixed_cap {
+                Some(cap) if len >= cap => (Ret::Err, false, "capacity", nop()),
+                Some(_) => (Ret::Ok, false, "capacity", Box::new(move |m| m.push_back(i0))),
+                None => (if got == Ret::Done { Ret::Done } else { Ret::Ok }, true, "return_value", Box::new(move |m| m.push_back(i0))),
+            },
+            COp::PopAlt => {
+                if self.queue {
+                    (Ret::Val(m.front().copied()), false, "return_value", Box::new(|m| {
+                        m.pop_front();
+                    }))
+                } else {
+                    (Ret::Val(m.back().copied()), false, "return_value", Box::new(|m| {
+                        m.pop_back();
+                    }))
+                }
+            }
+            COp::FillMid => (Ret::Ok, false, "return_value", Box::new(move |m| {
+                let n = m.len();
+                if n >= 2 {
+                    for x in m.iter_mut().take(n - 1).skip(1) {
+                        *x = i0;
+                    }
+                }
+            })),
+            COp::FillPast => (Ret::Err, false, "out_of_range", nop()),
             COp::CloneSwap => unreachable!(),
         };
         if got == want {
@@ -854,6 +1058,21 @@ impl ContSpec {
                     let clause = if i >= m.len() { "out_of_range" } else { "get" };
                     return Err(fl(clause, format!("{when}: get({i}) = {x:?}, model says {want:?} (len {})", m.len())));
                 }
+            }
+        }
+        for (what, seq) in &o.alt {
+            let want: Vec<u64> = m.iter().copied().collect();
+            if *seq != want {
+                return Err(fl("sequence", format!("{when}: {what} yields {seq:?}, model says {want:?}")));
+            }
+        }
+        for (what, got, claim) in &o.claims {
+            let want = match claim {
+                Claim::True => true,
+                Claim::LenIs(n) => m.len() == *n,
+            };
+            if *got != want {
+                return Err(fl("observer", format!("{when}: {what} = {got}, model says {want} ({} elements)", m.len())));
             }
         }
         if let Some(f) = o.front {
@@ -992,10 +1211,11 @@ fn cont(
         queue,
         tracked,
         fixed_cap,
-        guard_assign: name.starts_with("FastVec<u64>"),
+        guard_assign: name.starts_with("FastVec<u64>") || name.starts_with("FastVec<u8>"),
         depth_q: dq,
         depth_t: dt,
         note,
+        norm: |x| x,
     })
 }
 
@@ -1232,6 +1452,325 @@ fn main() {
                 ));
             }
         }
+
+        // =========================================================================================
+        // Coverage audit: element types, entry points, presets and thresholds not reached above
+        // =========================================================================================
+        fn with_norm(mut s: Seq<ContSpec>, norm: fn(u64) -> u64) -> Seq<ContSpec> {
+            s.0.norm = norm;
+            s
+        }
+        fn mmap_make<E: Elem + Copy>(cfg: fn() -> MmapVecConfig) -> impl Fn(&Path) -> Result<Box<dyn Cont>, String> {
+            move |scratch: &Path| {
+                static N: std::sync::atomic::AtomicU64 = std::sync::atomic::AtomicU64::new(0);
+                let path = scratch.join(format!("c10-au-{}-{}.mmv", std::process::id(), N.fetch_add(1, std::sync::atomic::Ordering::Relaxed)));
+                let v = MmapVec::<E>::create(&path, cfg()).map_err(es)?;
+                Ok(Box::new(MmapVecAd { v: Some(v), path }) as Box<dyn Cont>)
+            }
+        }
+
+        // ---- FastVec<u8>: the size_of::<T>() == 1 branches (resize -> fast_fill for >= 64 new elements, fill_range_fast ->
+        //      fast_fill), SIMD insert/remove moves of >= 64 bytes; partial and out-of-range fill ranges
+        reg.add(with_norm(
+            cont(
+                "FastVec<u8>/bulk",
+                |_| Ok(Box::new(FastVecAd::<u8>(FastVec::new())) as Box<dyn Cont>),
+                &[Push, Pop, Resize(Len::Plus70), Resize(Len::Minus1), ExtendSlice(70), ExtendIter(70), FillAll, FillMid, FillPast, Insert(Pos::Front), Remove(Pos::Front), Shrink, CloneSwap],
+                &[],
+                false,
+                false,
+                None,
+                3,
+                4,
+                "element ids are taken modulo 256; 70 one-byte elements cross the 64-byte SIMD threshold",
+            ),
+            |x| x % 256,
+        ));
+        reg.add(with_norm(
+            cont(
+                "FastVec<u8>/bulk/prefill72",
+                |_| Ok(Box::new(FastVecAd::<u8>(FastVec::new())) as Box<dyn Cont>),
+                &[Push, Pop, Insert(Pos::Front), Insert(Pos::Mid), Remove(Pos::Front), Remove(Pos::Mid), FillMid, FillAll, Assign(70), Resize(Len::Plus70), CloneSwap],
+                &[ExtendSlice(70), Push, Push],
+                false,
+                false,
+                None,
+                3,
+                4,
+                "element ids are taken modulo 256; Assign(70) is enabled only while 70 >= len (a shorter source aborts the process, see notes)",
+            ),
+            |x| x % 256,
+        ));
+        // ---- FastVec<u64>: extend(iterator) with >= 8 elements takes its own collect + fast_copy path; partial fills
+        reg.add(cont(
+            "FastVec<u64>/extend-iter",
+            |_| Ok(Box::new(FastVecAd::<u64>(FastVec::new())) as Box<dyn Cont>),
+            &[Push, Pop, ExtendIter(2), ExtendIter(9), ExtendIter(17), FillMid, FillPast, Shrink, Reserve(3), CloneSwap],
+            &[],
+            false,
+            false,
+            None,
+            4,
+            5,
+            "extend() of a Copy type switches to collect + fast_copy at 64 bytes (8 elements); FillMid over >= 16 elements takes the prefetching loop",
+        ));
+        reg.add(cont(
+            "FastVec<Tracked>[cap=0]/extend-iter",
+            |_| Ok(Box::new(FastVecAd::<Tracked>(FastVec::new())) as Box<dyn Cont>),
+            &[Push, Pop, ExtendIter(2), ExtendIter(9), Resize(Len::Minus1), Shrink, CloneSwap],
+            &[],
+            false,
+            true,
+            None,
+            4,
+            5,
+            "",
+        ));
+
+        // ---- ValVec32: push_panic (own slow path) and unchecked_push / unchecked_push_copy as alternative entry points
+        for (cap, pre) in [(0u32, 0usize), (0, 8), (3, 0)] {
+            reg.add(cont(
+                &format!("ValVec32<Tracked>[cap={cap}]/push_panic+unchecked_push{}", if pre > 0 { "/prefill8" } else { "" }),
+                move |_| Ok(Box::new(ValVecAd::<Tracked>(ValVec32::with_capacity(cap).map_err(es)?)) as Box<dyn Cont>),
+                &[PushAlt, Push, Pop, Set(Pos::Front), Extend2, Clear, CloneSwap],
+                &vec![PushAlt; pre],
+                false,
+                true,
+                None,
+                if pre > 0 { 4 } else { 5 },
+                if pre > 0 { 5 } else { 6 },
+                "PushAlt = unchecked_push where spare capacity exists and the element id is even, else push_panic",
+            ));
+        }
+        reg.add(cont(
+            "ValVec32<u64>/push_panic+unchecked_push_copy",
+            |_| Ok(Box::new(ValVecAd::<u64>(ValVec32::new())) as Box<dyn Cont>),
+            &[PushAlt, Push, Pop, ExtendSlice(9), PushN(17), Clear, CloneSwap],
+            &[],
+            false,
+            false,
+            None,
+            4,
+            5,
+            "",
+        ));
+
+        // ---- ValVec32 with a zero-sized element type (own branches in with_capacity / grow_to / as_slice / drop)
+        reg.add(with_norm(
+            cont(
+                "ValVec32<()>",
+                |_| Ok(Box::new(ValVecAd::<()>(ValVec32::with_capacity(2).map_err(es)?)) as Box<dyn Cont>),
+                &[Push, Pop, Extend2, Clear, CloneSwap],
+                &[],
+                false,
+                false,
+                None,
+                4,
+                5,
+                "zero-sized elements all carry id 0: the model is a sequence of zeros, what is compared is its length in every view",
+            ),
+            |_| 0,
+        ));
+
+        // ---- FixedCircularQueue: a capacity that is no power of two, the push()/pop() aliases, is_full()
+        for k in 0..3 {
+            reg.add(cont(
+                &format!("FixedCircularQueue<Tracked,3>/head={k}"),
+                |_| Ok(Box::new(FixedQAd::<Tracked, 3>(FixedCircularQueue::new())) as Box<dyn Cont>),
+                &[PushBack, PopFront, PushAlt, PopAlt, Clear],
+                &rotate(k),
+                true,
+                true,
+                Some(3),
+                5,
+                6,
+                "PushAlt/PopAlt = push()/pop()",
+            ));
+        }
+
+        // ---- AutoGrowCircularQueue: requested capacities that are no power of two (rounded by ensure_power_of_two, whose
+        //      shift cascade only matters for larger values), push()/pop() aliases, PartialEq
+        for (cap, k) in [(3usize, 0usize), (3, 2), (5, 0), (5, 6)] {
+            let mut prefix = Vec::new();
+            for _ in 0..k {
+                prefix.push(PushBack);
+                prefix.push(PopFront);
+            }
+            reg.add(cont(
+                &format!("AutoGrowCircularQueue<Tracked>[with_capacity({cap})]/head={k}"),
+                move |_| Ok(Box::new(AutoQAd::<Tracked>(AutoGrowCircularQueue::with_capacity(cap))) as Box<dyn Cont>),
+                &[PushBack, PopFront, PushAlt, PopAlt, PushBulk(3), PopBulk(3), Reserve(2), Clear, CloneSwap],
+                &prefix,
+                true,
+                true,
+                None,
+                4,
+                5,
+                "PushAlt/PopAlt = push()/pop()",
+            ));
+        }
+        for cap in [33usize, 513, 65537] {
+            reg.add(cont(
+                &format!("AutoGrowCircularQueue<Tracked>[with_capacity({cap})]"),
+                move |_| Ok(Box::new(AutoQAd::<Tracked>(AutoGrowCircularQueue::with_capacity(cap))) as Box<dyn Cont>),
+                &[PushBack, PopFront, PushBulk(3), PopBulk(3), CloneSwap],
+                &[PushBack, PopFront],
+                true,
+                true,
+                None,
+                3,
+                4,
+                "a capacity that is not rounded to a power of two makes the index mask skip or repeat slots",
+            ));
+        }
+        reg.add(cont(
+            "AutoGrowCircularQueue<Tracked>[new]/reserve-large",
+            |_| Ok(Box::new(AutoQAd::<Tracked>(AutoGrowCircularQueue::new())) as Box<dyn Cont>),
+            &[PushBack, PopFront, Reserve(8), Reserve(40), Reserve(511), PushBulk(3), CloneSwap],
+            &[PushBack, PushBack, PopFront],
+            true,
+            true,
+            None,
+            3,
+            4,
+            "reserve() for 8 / 40 / 511 more elements goes through ensure_power_of_two (with one element stored, 511 asks for exactly 513 slots) with a wrapped or offset ring",
+        ));
+
+        // ---- PooledVec: the push beyond the chunk capacity must be refused
+        {
+            let cap = 1024 / std::mem::size_of::<Tracked>();
+            reg.add(cont(
+                "PooledVec<Tracked>[global small pool]/full",
+                |_| Ok(Box::new(PooledVecAd::<Tracked>(PooledVec::new().map_err(es)?)) as Box<dyn Cont>),
+                &[Push],
+                &vec![Push; cap - 1],
+                false,
+                true,
+                Some(cap),
+                3,
+                3,
+                "the prefix leaves one free slot of the 1024-byte chunk; the push after the last slot must return Err",
+            ));
+        }
+
+        // ---- cache_layout::CacheAlignedVec (a second public type of that name)
+        reg.add(cont(
+            "cache_layout::CacheAlignedVec<Tracked>[Sequential]",
+            |_| Ok(Box::new(LayoutVecAd::<Tracked>(LayoutVec::with_access_pattern(AccessPattern::Sequential))) as Box<dyn Cont>),
+            &[Push],
+            &[Push, Push, Push, Push, Push, Push, Push],
+            false,
+            true,
+            None,
+            2,
+            3,
+            "push is the only mutator; with the Sequential pattern every 8th push prefetches the whole buffer; slice(range) is an observer",
+        ));
+        reg.add(cont(
+            "cache_layout::CacheAlignedVec<Tracked>[Random]",
+            |_| Ok(Box::new(LayoutVecAd::<Tracked>(LayoutVec::with_access_pattern(AccessPattern::Random))) as Box<dyn Cont>),
+            &[Push],
+            &[],
+            false,
+            true,
+            None,
+            3,
+            4,
+            "",
+        ));
+
+        // ---- MmapVec: one-byte elements (own SIMD fill branch), partial / out-of-range fills, Truncate beyond len,
+        //      presets with their own branches, the temp-file constructor, a mapping larger than the 64 KiB minimum
+        fn mm_small() -> MmapVecConfig {
+            MmapVecConfig { initial_capacity: 1, ..MmapVecConfig::default() }
+        }
+        fn mm_memopt() -> MmapVecConfig {
+            MmapVecConfig { initial_capacity: 2, ..MmapVecConfig::memory_optimized() }
+        }
+        fn mm_persistent() -> MmapVecConfig {
+            MmapVecConfig { initial_capacity: 2, ..MmapVecConfig::persistent_cache() }
+        }
+        fn mm_64k() -> MmapVecConfig {
+            MmapVecConfig { initial_capacity: 8184, ..MmapVecConfig::default() }
+        }
+        reg.add(with_norm(
+            cont(
+                "MmapVec<u8>[cap=1]/bulk",
+                mmap_make::<u8>(mm_small),
+                &[Push, ExtendSlice(70), Resize(Len::Plus70), FillAll, FillMid, FillPast, PopN(3), Truncate(Len::Minus1), Truncate(Len::Plus2), Assign(70), Shrink],
+                &[],
+                false,
+                false,
+                None,
+                3,
+                3,
+                "element ids modulo 256; fill_range_simd has its own branch for one-byte elements and >= 64 bytes",
+            ),
+            |x| x % 256,
+        ));
+        reg.add(cont(
+            "MmapVec<u64>[cap=1]/fill-ranges",
+            mmap_make::<u64>(mm_small),
+            &[Push, ExtendSlice(9), FillMid, FillPast, FillAll, Truncate(Len::Plus2), PopN(1)],
+            &[],
+            false,
+            false,
+            None,
+            3,
+            4,
+            "",
+        ));
+        reg.add(cont(
+            "MmapVec<u64>[memory_optimized,cap=2]",
+            mmap_make::<u64>(mm_memopt),
+            &[Push, Pop, Extend2, Resize(Len::Plus2), Shrink, Reserve(3), Clear],
+            &[],
+            false,
+            false,
+            None,
+            4,
+            5,
+            "growth factor 1.4: the factor rounds down to the old capacity, growth relies on the capacity + 1 floor",
+        ));
+        reg.add(cont(
+            "MmapVec<u64>[persistent_cache,cap=2]",
+            mmap_make::<u64>(mm_persistent),
+            &[Push, Pop, ExtendSlice(9), PopN(3), Resize(Len::Plus2), Truncate(Len::Zero), Shrink, Clear],
+            &[],
+            false,
+            false,
+            None,
+            3,
+            3,
+            "sync_on_write: every mutator rewrites the backing file, which the next growth reads back",
+        ));
+        reg.add(cont(
+            "MmapVec<u64>[with_capacity_simd(16)]",
+            |_| {
+                let v = MmapVec::<u64>::with_capacity_simd(16).map_err(es)?;
+                Ok(Box::new(MmapVecAd { v: Some(v), path: PathBuf::from("/nonexistent/c10-temp-file-is-removed-by-the-vector") }) as Box<dyn Cont>)
+            },
+            &[Push, Pop, ExtendSlice(9), PopN(3), Clear],
+            &[],
+            false,
+            false,
+            None,
+            3,
+            3,
+            "the vector creates (and removes) its own temporary file; default capacity 1024",
+        ));
+        reg.add(cont(
+            "MmapVec<u64>[cap=8184]/64KiB",
+            mmap_make::<u64>(mm_64k),
+            &[Push, Pop, ExtendSlice(9), PopN(3), Shrink, Reserve(3), Truncate(Len::Minus1), Resize(Len::Plus2)],
+            &[ExtendSlice(8184)],
+            false,
+            false,
+            None,
+            3,
+            3,
+            "header + 8184 x u64 is exactly the 64 KiB minimum mapping: the next growth makes the mapping as large as the file, shrink_to_fit goes back",
+        ));
 
         strs::register(reg);
     });
